@@ -23,7 +23,7 @@ RULE = ("Exhaustive table: trigger kind {UTC absolute, zoned, floating, date} x 
         "trigger must be compared. Non-trivial: >= 2 of the four instants present; distinct by construction / hash.")
 ASSUMPTIONS = ["in Thunderbird mode (any X-MOZ- property) the component acknowledgement is X-MOZ-LASTACK, otherwise DTSTAMP",
                "a date-valued trigger stands for local midnight"]
-REQUIRED_CLASSES = ["tkind:utc", "tkind:zoned", "tkind:floating", "tkind:date", "mode:dtstamp", "mode:moz", "mode:moz-parse", "mode:manual",
+REQUIRED_CLASSES = ["multi-alarm", "tkind:utc", "tkind:zoned", "tkind:floating", "tkind:date", "mode:dtstamp", "mode:moz", "mode:moz-parse", "mode:manual",
                     "equal-instants", "snoozed", "local-tz-set"]
 
 UTC = timezone.utc
@@ -163,9 +163,85 @@ def observe(case, provider, alarm_ack, comp_ack, snooze):
     return act, rep, at.acknowledged, lst_r, [id(x.alarm) for x in times]
 
 
+def judge_multi(case, provider):
+    """several alarms (with repeats) in one component: every alarm time is judged with its own alarm's ACKNOWLEDGED"""
+    start = datetime(2021, 6, 15, 10, 0, 0, tzinfo=zoneinfo.ZoneInfo(ZONE))
+    s_utc = start.astimezone(UTC)
+    at = lambda off: None if off is None else s_utc + timedelta(seconds=off)   # noqa: E731
+    other = zoneinfo.ZoneInfo("Asia/Tokyo")
+    comp_ack, snooze = at(case.get("comp_ack")), at(case.get("snooze"))
+    if case["mode"] == "moz-parse":
+        lines = ["BEGIN:VEVENT", "UID:m", f"DTSTART;TZID={ZONE}:{R.fmt_dt(T_WALL)}"]
+        if comp_ack is not None:
+            lines.append(f"X-MOZ-LASTACK:{R.fmt_dt(utc_list(comp_ack), True)}")
+        if snooze is not None:
+            lines.append(f"X-MOZ-SNOOZE-TIME:{R.fmt_dt(utc_list(snooze), True)}")
+        if comp_ack is None and snooze is None:
+            lines.append("X-MOZ-GENERATION:1")
+        for a in case["alarms"]:
+            lines += ["BEGIN:VALARM", "ACTION:DISPLAY", f"TRIGGER:{R.fmt_dur_td(timedelta(seconds=a['trig']))}"]
+            if a.get("ack") is not None:
+                lines.append(f"ACKNOWLEDGED:{R.fmt_dt(utc_list(at(a['ack'])), True)}")
+            if a.get("repeat"):
+                lines += [f"REPEAT:{a['repeat']}", f"DURATION:{R.fmt_dur_td(timedelta(seconds=a['dur']))}"]
+            lines.append("END:VALARM")
+        lines.append("END:VEVENT")
+        ev = Event.from_ical("\r\n".join(lines) + "\r\n")
+        alarms = ev.walk("VALARM")
+    else:
+        ev = Event()
+        ev.start = V.dec({"k": "zoned", "v": T_WALL, "tz": ZONE}, provider)
+        alarms = []
+        for a in case["alarms"]:
+            al = Alarm()
+            al.TRIGGER = timedelta(seconds=a["trig"])
+            if a.get("ack") is not None:
+                al.ACKNOWLEDGED = at(a["ack"]).astimezone(other) if a.get("ack_other_zone") else at(a["ack"])
+            if a.get("repeat"):
+                al.REPEAT = a["repeat"]
+                al.DURATION = timedelta(seconds=a["dur"])
+            ev.add_component(al)
+            alarms.append(al)
+        if comp_ack is not None:
+            ev.DTSTAMP = comp_ack.astimezone(other) if case.get("comp_ack_other_zone") else comp_ack
+        snooze = None
+    idx = {id(a): i for i, a in enumerate(alarms)}
+    want_times, want_active = [], []
+    for i, a in enumerate(case["alarms"]):
+        for k in range(0, (a.get("repeat") or 0) + 1):
+            t = s_utc + timedelta(seconds=a["trig"] + k * (a.get("dur") or 0))
+            acks = [x for x in (at(a.get("ack")), comp_ack) if x is not None]
+            ack = max(acks) if acks else None
+            active = ack is None or (snooze is not None and snooze > ack) or t > ack
+            rep = snooze if (snooze is not None and snooze > t) else t
+            want_times.append((i, t))
+            if active:
+                want_active.append((i, rep))
+    fails = []
+    try:
+        A = ev.alarms
+        times = A.times
+        got_times = sorted((idx[id(x.alarm)], x._trigger.astimezone(UTC)) for x in times)
+        act = A.active
+        got_active = sorted((idx[id(x.alarm)], x.trigger.astimezone(UTC)) for x in act)
+    except Exception as e:
+        return [Failure("C15.errors", "multi-raises/" + exc_signature(e), repr(e)[:300])]
+    if got_times != sorted(want_times):
+        fails.append(Failure("C15.active", "multi-times-differ", f"{got_times!r} vs {sorted(want_times)!r}"[:500]))
+    if got_active != sorted(want_active):
+        fails.append(Failure("C15.active", "multi-active-set-differs", f"got {got_active!r} want {sorted(want_active)!r}"[:600]))
+    tkeys = [(idx[id(x.alarm)], x._trigger) for x in times]
+    it = iter(tkeys)
+    if not all(any(k == t for t in it) for k in [(idx[id(x.alarm)], x._trigger) for x in act]):      # subsequence test
+        fails.append(Failure("C15.active", "active-not-an-ordered-sublist-of-times", f"{tkeys!r}"[:300]))
+    return fails
+
+
 def judge(case):
     provider = case.get("provider", "zoneinfo")
     sut.reset(provider)
+    if case.get("kind") == "multi":
+        return judge_multi(case, provider)
     if case["mode"] == "dtstamp" and case.get("snooze") is not None:
         raise ValueError("malformed case: no snooze wiring in DTSTAMP mode")
     a_ack, c_ack, snz = inst(case, case.get("alarm_ack")), inst(case, case.get("comp_ack")), inst(case, case.get("snooze"))
@@ -233,6 +309,8 @@ def _is_orig(case, rep):
 
 
 def info(case):
+    if case.get("kind") == "multi":
+        return {"nontrivial": len(case["alarms"]) >= 2, "classes": ["multi-alarm", "mode:" + case["mode"]]}
     offs = [case.get("alarm_ack"), case.get("comp_ack"), case.get("snooze")]
     present = 1 + sum(1 for o in offs if o is not None)
     classes = ["tkind:" + case["tkind"], "mode:" + case["mode"]]
@@ -278,11 +356,20 @@ def _hyp():
         "comp": st.sampled_from(["Event", "Todo"]), "later_by": st.integers(1, 10 ** 6)})
 
 
+def _multi():
+    off = st.one_of(st.none(), st.sampled_from([-7200, -3601, -3600, -3599, -1, 0, 1, 3600, 86400]), st.integers(-10 ** 5, 10 ** 5))
+    alarm = st.fixed_dictionaries({"trig": st.sampled_from([-7200, -3600, -900, 0, 600, 3600]), "ack": off, "ack_other_zone": st.booleans(),
+                                   "repeat": st.sampled_from([0, 0, 1, 3]), "dur": st.sampled_from([60, 900, 3600])})
+    return st.fixed_dictionaries({"kind": st.just("multi"), "provider": st.sampled_from(["zoneinfo", "pytz"]), "mode": st.sampled_from(["dtstamp", "moz-parse"]),
+                                  "alarms": st.lists(alarm, min_size=1, max_size=4), "comp_ack": off, "comp_ack_other_zone": st.booleans(), "snooze": off})
+
+
 def streams(tier):
     n = 1500 if tier == "quick" else 30000
     return [
         Stream("decision-table", "fixed", 0, 16, _rows, True, True),
         Stream("random-instants", "hyp", n, 16, _hyp),
+        Stream("several-alarms", "hyp", n, 8, _multi),
     ]
 
 
